@@ -24,7 +24,9 @@ CONSTANTS Keys, Native, MirrorDropsEmpty, AppVals,
           RetryCount,     \* storage_retry_count
           MaxCrash,       \* bound on crashes
           AllowWindow,    \* may the application commit between an EMPTY LS write transaction and the following env.Info()?
-          StartStates     \* subset of {"empty", "data", "ownsnap", "data+ownsnap"}
+          StartStates,    \* subset of {"empty", "data", "ownsnap", "data+ownsnap"}
+          OtherAtStart,   \* subset of BOOLEAN: may another instance's snapshot lie in the bucket when the instance starts
+          OnlyOnce        \* configuration only_once: the loop returns once every instance seen at start-up has been loaded
 
 VARIABLES
     main,      \* shadow mode: application DBI, [Keys -> -1 \cup Val]; -1 = no entry
@@ -47,12 +49,16 @@ VARIABLES
     appSinceSend, sentSinceStart, infoAtCheck,
     nApp, nRemote, iter, nCrash,
     remoteSeen, \* history: versions that arrived from other instances
+    otherOld,   \* [has, img]: the newest snapshot of another instance lying in the bucket (present at every start)
+    otherDelivered, waitingOther,   \* as ownDelivered / waitingOwn, for that instance
+    tListing, tStore, tPass,        \* status/starttracker: initial listing, initial store (or skipped), first complete pass
     mergedN,    \* Syncer.lastByInstance: number of remote snapshots merged in this run (sync.go:561)
     committedN, \* cleaner.Worker.lastByInstance: what the cleaner was told is contained in an own stored snapshot (send.go:265)
     act
 vars == <<main, store, appDBI, shadowDBI, lastTxn, clock, bucket, ownOld, ownDelivered, avail, pc, lastSynced,
           hasDataAtStart, hasSnapshots, waitingOwn, cur, ret, appLast, uncaptured, unpub, sendCover,
-          appSinceSend, sentSinceStart, infoAtCheck, nApp, nRemote, iter, nCrash, remoteSeen, mergedN, committedN, act>>
+          appSinceSend, sentSinceStart, infoAtCheck, nApp, nRemote, iter, nCrash, remoteSeen, mergedN, committedN,
+          otherOld, otherDelivered, waitingOther, tListing, tStore, tPass, act>>
 
 (* versions a remote snapshot may carry for a key: older than every local stamp, or stamped "now"   *)
 (* (shadow mode: all instances share one monotone clock; native mode: application chosen, 50 is     *)
@@ -60,7 +66,7 @@ vars == <<main, store, appDBI, shadowDBI, lastTxn, clock, bucket, ownOld, ownDel
 RemoteNow == IF Native THEN 50 ELSE clock + 1
 RemoteVers == {Live(2, 2), Live(RemoteNow, 2), Tomb(RemoteNow)}
 
-NoCur == [w |-> 0, lc |-> FALSE, empty |-> FALSE, has |-> FALSE, img |-> <<>>, own |-> FALSE, txn |-> 0]
+NoCur == [w |-> 0, lc |-> FALSE, empty |-> FALSE, has |-> FALSE, img |-> <<>>, own |-> FALSE, oth |-> FALSE, txn |-> 0]
 EmptyStore == [k \in Keys |-> Absent]
 EmptyMain  == [k \in Keys |-> -1]
 Mirror(s) == IF MirrorDropsEmpty
@@ -74,9 +80,10 @@ AppView == IF Native THEN LiveProjection(store) ELSE main
 DataMain  == [k \in Keys |-> IF k = CHOOSE x \in Keys : TRUE THEN 1 ELSE -1]
 DataStore == [k \in Keys |-> IF k = CHOOSE x \in Keys : TRUE THEN Live(3, 1) ELSE Absent]
 OldImg    == [k \in Keys |-> IF k = CHOOSE x \in Keys : TRUE THEN Live(4, 2) ELSE Absent]
+OtherImg  == [k \in Keys |-> IF k = CHOOSE x \in Keys : TRUE THEN Live(5, 1) ELSE Absent]
 
 Init ==
-    \E ss \in StartStates :
+    \E ss \in StartStates, oth \in OtherAtStart :
       LET data == ss \in {"data", "data+ownsnap"}
           own  == ss \in {"ownsnap", "data+ownsnap"} IN
       /\ main = IF data /\ ~Native THEN DataMain ELSE EmptyMain
@@ -95,8 +102,12 @@ Init ==
       /\ unpub = IF data THEN {[k |-> CHOOSE x \in Keys : TRUE, v |-> 1, txn |-> 1]} ELSE {}
       /\ sendCover = {}
       /\ appSinceSend = FALSE /\ sentSinceStart = FALSE /\ infoAtCheck = 0
-      /\ nApp = 0 /\ nRemote = 0 /\ iter = 0 /\ nCrash = 0 /\ remoteSeen = {} /\ mergedN = 0 /\ committedN = 0
-      /\ act = [name |-> "init", start |-> ss]
+      /\ nApp = 0 /\ nRemote = 0 /\ iter = 0 /\ nCrash = 0 /\ mergedN = 0 /\ committedN = 0
+      /\ remoteSeen = IF oth THEN {<<k, OtherImg[k]>> : k \in {x \in Keys : OtherImg[x] # Absent}} ELSE {}
+      /\ otherOld = IF oth THEN [has |-> TRUE, img |-> OtherImg] ELSE [has |-> FALSE, img |-> EmptyStore]
+      /\ otherDelivered = FALSE /\ waitingOther = FALSE
+      /\ tListing = FALSE /\ tStore = FALSE /\ tPass = FALSE
+      /\ act = [name |-> "init", start |-> ss, other |-> oth]
 
 ---------------------------------------------------------------------------
 (* An LS write transaction: returns the new values of the LMDB variables.  *)
@@ -125,7 +136,9 @@ NoLMDBChange == UNCHANGED <<main, store, appDBI, shadowDBI, lastTxn>>
 NoHist == UNCHANGED <<appLast, uncaptured, unpub, sendCover, appSinceSend, sentSinceStart, infoAtCheck>>
 NoRS == UNCHANGED remoteSeen
 NoMC == UNCHANGED <<mergedN, committedN>>
-NoEnv == UNCHANGED <<bucket, ownOld, ownDelivered, avail, nApp, nRemote, nCrash>>
+NoEnv == UNCHANGED <<bucket, ownOld, ownDelivered, otherOld, otherDelivered, otherOld, otherDelivered, avail, nApp, nRemote, nCrash>>
+NoT == UNCHANGED <<tListing, tStore, tPass>>
+AllLoaded == ~waitingOwn /\ ~waitingOther
 
 (* history bookkeeping of a capture *)
 CaptureHist(did) == uncaptured' = IF did /\ ~Native THEN {} ELSE uncaptured
@@ -136,8 +149,10 @@ CaptureHist(did) == uncaptured' = IF did /\ ~Native THEN {} ELSE uncaptured
 Boot ==   \* Sync(): env.Info(), cleaner, initial listing  -> start.listed
     /\ pc = "boot"
     /\ hasDataAtStart' = (lastTxn > 0)
-    /\ hasSnapshots' = (ownOld.has \/ Len(bucket) > 0)
+    /\ hasSnapshots' = (ownOld.has \/ Len(bucket) > 0 \/ otherOld.has)
     /\ waitingOwn' = (ownOld.has \/ Len(bucket) > 0)
+    /\ waitingOther' = otherOld.has                   \* sync.go:116-125: every instance seen in the listing
+    /\ tListing' = TRUE /\ UNCHANGED <<tStore, tPass>>  \* sync.go:96
     /\ lastSynced' = 0
     /\ pc' = "start.listed"
     /\ act' = [name |-> "run", to |-> "start.listed"]
@@ -151,7 +166,7 @@ StartCapture ==   \* sync.go:126-143, timestamp 1
        /\ CaptureHist(do)
     /\ pc' = "start.captured"
     /\ act' = [name |-> "run", to |-> "start.captured"]
-    /\ UNCHANGED <<clock, bucket, ownOld, ownDelivered, avail, lastSynced, hasDataAtStart, hasSnapshots, waitingOwn, cur, ret,
+    /\ UNCHANGED <<clock, bucket, ownOld, ownDelivered, otherOld, otherDelivered, avail, lastSynced, hasDataAtStart, hasSnapshots, waitingOwn, waitingOther, cur, ret,
                    appLast, unpub, sendCover, appSinceSend, sentSinceStart, infoAtCheck, nApp, nRemote, iter, nCrash>>
 
 (* SendOnce's transaction (send.go:48-125): native = read transaction. *)
@@ -168,17 +183,18 @@ SendTxnFrom(from, r) ==
     /\ ret' = r
     /\ pc' = "send.txnDone"
     /\ act' = [name |-> "run", to |-> "send.txnDone", w |-> cur'.w]
-    /\ UNCHANGED <<bucket, ownOld, ownDelivered, avail, lastSynced, hasDataAtStart, hasSnapshots, waitingOwn,
+    /\ UNCHANGED <<bucket, ownOld, ownDelivered, otherOld, otherDelivered, avail, lastSynced, hasDataAtStart, hasSnapshots, waitingOwn, waitingOther,
                    appLast, unpub, appSinceSend, sentSinceStart, infoAtCheck, nApp, nRemote, iter, nCrash>>
 
 StartSendOrSkip ==
     \/ /\ hasDataAtStart /\ ~hasSnapshots
-       /\ SendTxnFrom("start.captured", "start")
+       /\ SendTxnFrom("start.captured", "start") /\ NoT
     \/ /\ pc = "start.captured" /\ ~(hasDataAtStart /\ ~hasSnapshots)
        /\ pc' = "start.sent"
        /\ act' = [name |-> "run", to |-> "start.sent"]
+       /\ tStore' = (tStore \/ ~hasDataAtStart) /\ UNCHANGED <<tListing, tPass>>   \* sync.go:166-169
        /\ NoLMDBChange /\ NoHist /\ NoEnv
-       /\ UNCHANGED <<clock, lastSynced, hasDataAtStart, hasSnapshots, waitingOwn, cur, ret, iter>>
+       /\ UNCHANGED <<clock, lastSynced, hasDataAtStart, hasSnapshots, waitingOwn, waitingOther, cur, ret, iter>>
 
 SendInfo ==   \* send.go:139-149
     /\ pc = "send.txnDone"
@@ -186,7 +202,7 @@ SendInfo ==   \* send.go:139-149
     /\ pc' = "send.infoRead"
     /\ act' = [name |-> "run", to |-> "send.infoRead", txn |-> cur'.txn]
     /\ NoLMDBChange /\ NoHist /\ NoEnv
-    /\ UNCHANGED <<clock, lastSynced, hasDataAtStart, hasSnapshots, waitingOwn, ret, iter>>
+    /\ UNCHANGED <<clock, lastSynced, hasDataAtStart, hasSnapshots, waitingOwn, waitingOther, ret, iter>>
 
 Store(fails) ==   \* send.go:193-234: `fails` Store calls fail first
     /\ pc = "send.infoRead"
@@ -201,7 +217,7 @@ Store(fails) ==   \* send.go:193-234: `fails` Store calls fail first
             /\ UNCHANGED <<bucket, unpub, appSinceSend, sentSinceStart>>
     /\ act' = [name |-> "run", to |-> pc', fails |-> fails]
     /\ NoLMDBChange
-    /\ UNCHANGED <<clock, ownOld, ownDelivered, avail, lastSynced, hasDataAtStart, hasSnapshots, waitingOwn, cur, ret,
+    /\ UNCHANGED <<clock, ownOld, ownDelivered, otherOld, otherDelivered, avail, lastSynced, hasDataAtStart, hasSnapshots, waitingOwn, waitingOther, cur, ret,
                    appLast, uncaptured, sendCover, infoAtCheck, nApp, nRemote, iter, nCrash>>
 
 SendCommitted ==
@@ -210,36 +226,45 @@ SendCommitted ==
     /\ committedN' = mergedN /\ mergedN' = mergedN
     /\ act' = [name |-> "run", to |-> "send.committed"]
     /\ NoLMDBChange /\ NoHist /\ NoEnv
-    /\ UNCHANGED <<clock, lastSynced, hasDataAtStart, hasSnapshots, waitingOwn, cur, ret, iter>>
+    /\ UNCHANGED <<clock, lastSynced, hasDataAtStart, hasSnapshots, waitingOwn, waitingOther, cur, ret, iter>>
 
 SendReturn ==   \* back in syncLoop: lastSyncedTxnID = actualTxnID
     /\ pc = "send.committed"
     /\ lastSynced' = cur.txn
     /\ pc' = IF ret = "start" THEN "start.sent" ELSE "loop.sleep"
+    /\ tStore' = TRUE /\ tListing' = tListing               \* sync.go:159 / 329
+    /\ tPass' = (tPass \/ (ret = "loop" /\ AllLoaded))       \* sync.go:338-340
     /\ cur' = NoCur
     /\ act' = [name |-> "run", to |-> pc', lastSynced |-> lastSynced']
     /\ NoLMDBChange /\ NoHist /\ NoEnv
-    /\ UNCHANGED <<clock, hasDataAtStart, hasSnapshots, waitingOwn, ret, iter>>
+    /\ UNCHANGED <<clock, hasDataAtStart, hasSnapshots, waitingOwn, waitingOther, ret, iter>>
+
+Exit ==   \* sync.go:345-348: only_once and nothing left to wait for
+    /\ pc = "loop.sleep" /\ OnlyOnce /\ AllLoaded
+    /\ pc' = "exit"
+    /\ act' = [name |-> "run", to |-> "exit"]
+    /\ NoLMDBChange /\ NoHist /\ NoEnv
+    /\ UNCHANGED <<clock, lastSynced, hasDataAtStart, hasSnapshots, waitingOwn, waitingOther, cur, ret, iter>>
 
 ToLoopTop ==
     /\ pc \in {"start.sent", "loop.sleep"}
-    /\ (pc = "loop.sleep" => iter < MaxIter)
+    /\ (pc = "loop.sleep" => iter < MaxIter /\ ~(OnlyOnce /\ AllLoaded))
     /\ iter' = IF pc = "loop.sleep" THEN iter + 1 ELSE iter
     /\ pc' = "loop.top"
     /\ act' = [name |-> "run", to |-> "loop.top"]
     /\ NoLMDBChange /\ NoHist /\ NoEnv
-    /\ UNCHANGED <<clock, lastSynced, hasDataAtStart, hasSnapshots, waitingOwn, cur, ret>>
+    /\ UNCHANGED <<clock, lastSynced, hasDataAtStart, hasSnapshots, waitingOwn, waitingOther, cur, ret>>
 
 NextUpdate ==   \* r.Next(): receiver snapshots first, then other updates
     /\ pc \in {"loop.top", "load.done"}
     /\ IF avail # <<>>
-       THEN /\ cur' = [NoCur EXCEPT !.has = TRUE, !.img = Head(avail).img, !.own = Head(avail).own]
+       THEN /\ cur' = [NoCur EXCEPT !.has = TRUE, !.img = Head(avail).img, !.own = Head(avail).own, !.oth = Head(avail).oth]
             /\ avail' = Tail(avail)
        ELSE /\ cur' = NoCur /\ avail' = avail
     /\ pc' = "loop.next"
     /\ act' = [name |-> "run", to |-> "loop.next", got |-> avail # <<>>]
     /\ NoLMDBChange /\ NoHist
-    /\ UNCHANGED <<clock, bucket, ownOld, ownDelivered, lastSynced, hasDataAtStart, hasSnapshots, waitingOwn, ret, iter, nApp, nRemote, nCrash>>
+    /\ UNCHANGED <<clock, bucket, ownOld, ownDelivered, otherOld, otherDelivered, lastSynced, hasDataAtStart, hasSnapshots, waitingOwn, waitingOther, ret, iter, nApp, nRemote, nCrash>>
 
 LoadTxn ==   \* sync.go:362-518
     /\ pc = "loop.next" /\ cur.has
@@ -257,7 +282,8 @@ LoadTxn ==   \* sync.go:362-518
             /\ pc' = "load.txnDone"
             /\ act' = [name |-> "run", to |-> "load.txnDone", w |-> w, lc |-> lc]
     /\ waitingOwn' = IF cur.own THEN FALSE ELSE waitingOwn     \* sync.go:213-219
-    /\ UNCHANGED <<bucket, ownOld, ownDelivered, avail, lastSynced, hasDataAtStart, hasSnapshots, ret,
+    /\ waitingOther' = IF cur.oth THEN FALSE ELSE waitingOther
+    /\ UNCHANGED <<bucket, ownOld, ownDelivered, otherOld, otherDelivered, avail, lastSynced, hasDataAtStart, hasSnapshots, ret,
                    appLast, unpub, sendCover, appSinceSend, sentSinceStart, infoAtCheck, nApp, nRemote, iter, nCrash>>
 
 NoUpdate ==   \* inner loop ends; CleanDisappeared, overdue check -> check.before
@@ -265,16 +291,16 @@ NoUpdate ==   \* inner loop ends; CleanDisappeared, overdue check -> check.befor
     /\ pc' = "check.before"
     /\ act' = [name |-> "run", to |-> "check.before"]
     /\ NoLMDBChange /\ NoHist /\ NoEnv
-    /\ UNCHANGED <<clock, lastSynced, hasDataAtStart, hasSnapshots, waitingOwn, cur, ret, iter>>
+    /\ UNCHANGED <<clock, lastSynced, hasDataAtStart, hasSnapshots, waitingOwn, waitingOther, cur, ret, iter>>
 
 LoadInfo ==   \* sync.go:525-536
     /\ pc = "load.txnDone"
     /\ cur' = [cur EXCEPT !.txn = IF lastTxn < cur.w THEN lastTxn ELSE cur.w]
     /\ pc' = "load.infoRead"
     /\ act' = [name |-> "run", to |-> "load.infoRead", txn |-> cur'.txn]
-    /\ mergedN' = (IF cur.own THEN mergedN ELSE mergedN + 1) /\ committedN' = committedN
+    /\ mergedN' = (IF cur.own \/ cur.oth THEN mergedN ELSE mergedN + 1) /\ committedN' = committedN   \* counted per instance: the hook's instance
     /\ NoLMDBChange /\ NoHist /\ NoEnv
-    /\ UNCHANGED <<clock, lastSynced, hasDataAtStart, hasSnapshots, waitingOwn, ret, iter>>
+    /\ UNCHANGED <<clock, lastSynced, hasDataAtStart, hasSnapshots, waitingOwn, waitingOther, ret, iter>>
 
 LoadDone ==   \* sync.go:241-248
     /\ pc = "load.infoRead"
@@ -283,7 +309,7 @@ LoadDone ==   \* sync.go:241-248
     /\ pc' = "load.done"
     /\ act' = [name |-> "run", to |-> "load.done", lastSynced |-> lastSynced']
     /\ NoLMDBChange /\ NoHist /\ NoEnv
-    /\ UNCHANGED <<clock, hasDataAtStart, hasSnapshots, waitingOwn, ret, iter>>
+    /\ UNCHANGED <<clock, hasDataAtStart, hasSnapshots, waitingOwn, waitingOther, ret, iter>>
 
 CheckRead ==   \* sync.go:286-289
     /\ pc = "check.before"
@@ -291,32 +317,34 @@ CheckRead ==   \* sync.go:286-289
     /\ pc' = "check.read"
     /\ act' = [name |-> "run", to |-> "check.read", info |-> lastTxn, lastSynced |-> lastSynced]
     /\ NoLMDBChange /\ NoEnv
-    /\ UNCHANGED <<clock, lastSynced, hasDataAtStart, hasSnapshots, waitingOwn, cur, ret, iter,
+    /\ UNCHANGED <<clock, lastSynced, hasDataAtStart, hasSnapshots, waitingOwn, waitingOther, cur, ret, iter,
                    appLast, uncaptured, unpub, sendCover, appSinceSend, sentSinceStart>>
 
 WillSend == infoAtCheck > lastSynced /\ ~waitingOwn     \* sync.go:294-314 (info > lastSynced >= 0 implies the inner guard)
 
 Decide ==
     \/ /\ WillSend
-       /\ SendTxnFrom("check.read", "loop")
+       /\ SendTxnFrom("check.read", "loop") /\ NoT
     \/ /\ pc = "check.read" /\ ~WillSend
        /\ pc' = "loop.sleep"
+       /\ tPass' = (tPass \/ AllLoaded) /\ UNCHANGED <<tListing, tStore>>
        /\ act' = [name |-> "run", to |-> "loop.sleep", lastSynced |-> lastSynced]
        /\ NoLMDBChange /\ NoHist /\ NoEnv
-       /\ UNCHANGED <<clock, lastSynced, hasDataAtStart, hasSnapshots, waitingOwn, cur, ret, iter>>
+       /\ UNCHANGED <<clock, lastSynced, hasDataAtStart, hasSnapshots, waitingOwn, waitingOther, cur, ret, iter>>
 
-Run == \/ (Boot \/ StartCapture \/ StartSendOrSkip \/ SendInfo \/ (\E f \in 0..RetryCount : Store(f))
-           \/ SendReturn \/ ToLoopTop \/ NextUpdate \/ LoadTxn \/ NoUpdate
-           \/ LoadDone \/ CheckRead \/ Decide) /\ NoMC
-       \/ SendCommitted \/ LoadInfo
+Run == \/ (Boot \/ StartSendOrSkip \/ SendReturn \/ Decide) /\ NoMC
+       \/ (StartCapture \/ SendInfo \/ (\E f \in 0..RetryCount : Store(f))
+           \/ ToLoopTop \/ Exit \/ NextUpdate \/ LoadTxn \/ NoUpdate
+           \/ LoadDone \/ CheckRead) /\ NoMC /\ NoT
+       \/ (SendCommitted \/ LoadInfo) /\ NoT
 
 ---------------------------------------------------------------------------
 (* Environment.                                                            *)
-Parked == pc \notin {"boot", "dead"}
+Parked == pc \notin {"boot", "dead", "exit"}
 InEmptyWindow == pc \in {"load.txnDone", "send.txnDone"} /\ cur.empty /\ (pc = "send.txnDone" => ~Native)
 
 AppCommit(k, v) ==   \* v = -1: delete
-    /\ pc # "dead" /\ nApp < MaxApp
+    /\ pc \notin {"dead", "exit"} /\ nApp < MaxApp
     /\ (InEmptyWindow => AllowWindow)
     /\ v \in AppVals \cup {-1}
     /\ AppView[k] # v
@@ -334,34 +362,45 @@ AppCommit(k, v) ==   \* v = -1: delete
     /\ appSinceSend' = TRUE
     /\ nApp' = nApp + 1
     /\ act' = [name |-> "app", k |-> k, v |-> v, window |-> InEmptyWindow, at |-> pc]
-    /\ UNCHANGED <<bucket, ownOld, ownDelivered, avail, pc, lastSynced, hasDataAtStart, hasSnapshots, waitingOwn, cur, ret,
+    /\ UNCHANGED <<bucket, ownOld, ownDelivered, otherOld, otherDelivered, avail, pc, lastSynced, hasDataAtStart, hasSnapshots, waitingOwn, waitingOther, cur, ret,
                    sendCover, sentSinceStart, infoAtCheck, nRemote, iter, nCrash>>
 
 Inject(img) ==   \* a remote snapshot arrives through hooks.OtherUpdateSource
     /\ Parked /\ nRemote < MaxRemote /\ Len(avail) < 2
-    /\ avail' = Append(avail, [own |-> FALSE, img |-> img])
+    /\ avail' = Append(avail, [own |-> FALSE, oth |-> FALSE, img |-> img])
     /\ nRemote' = nRemote + 1
     /\ act' = [name |-> "inject", img |-> img]
     /\ clock' = IF Native THEN clock ELSE clock + 1
     /\ remoteSeen' = remoteSeen \cup {<<k, img[k]>> : k \in DOMAIN img}
     /\ NoLMDBChange /\ NoHist
-    /\ UNCHANGED <<bucket, ownOld, ownDelivered, pc, lastSynced, hasDataAtStart, hasSnapshots, waitingOwn, cur, ret, iter, nApp, nCrash>>
+    /\ UNCHANGED <<bucket, ownOld, ownDelivered, otherOld, otherDelivered, pc, lastSynced, hasDataAtStart, hasSnapshots, waitingOwn, waitingOther, cur, ret, iter, nApp, nCrash>>
 
 NewestOwnImg == IF Len(bucket) > 0 THEN bucket[Len(bucket)].img ELSE Image(ownOld.img)
 DeliverOwn ==   \* the downloader finishes loading the instance's newest own snapshot (start-up only)
-    /\ pc \notin {"boot", "dead"} /\ waitingOwn /\ ~ownDelivered
-    /\ avail' = <<[own |-> TRUE, img |-> NewestOwnImg]>> \o avail     \* receiver snapshots have priority
+    /\ Parked /\ waitingOwn /\ ~ownDelivered
+    /\ ~\E i \in 1..Len(avail) : avail[i].oth      \* one downloaded snapshot at a time (Next() picks among several in map order)
+    /\ avail' = <<[own |-> TRUE, oth |-> FALSE, img |-> NewestOwnImg]>> \o avail     \* receiver snapshots have priority
     /\ ownDelivered' = TRUE
     /\ act' = [name |-> "deliverown"]
     /\ NoLMDBChange /\ NoHist
-    /\ UNCHANGED <<clock, bucket, ownOld, pc, lastSynced, hasDataAtStart, hasSnapshots, waitingOwn, cur, ret, iter, nApp, nRemote, nCrash>>
+    /\ UNCHANGED <<clock, bucket, ownOld, otherOld, otherDelivered, pc, lastSynced, hasDataAtStart, hasSnapshots, waitingOwn, waitingOther, cur, ret, iter, nApp, nRemote, nCrash>>
+
+DeliverOther ==   \* the downloader finishes loading the other instance's snapshot (start-up listing only: poll interval = never)
+    /\ Parked /\ waitingOther /\ ~otherDelivered
+    /\ ~\E i \in 1..Len(avail) : avail[i].own
+    /\ avail' = <<[own |-> FALSE, oth |-> TRUE, img |-> Image(otherOld.img)]>> \o avail
+    /\ otherDelivered' = TRUE
+    /\ act' = [name |-> "deliverother"]
+    /\ NoLMDBChange /\ NoHist
+    /\ UNCHANGED <<clock, bucket, ownOld, ownDelivered, otherOld, pc, lastSynced, hasDataAtStart, hasSnapshots, waitingOwn, waitingOther, cur, ret, iter, nApp, nRemote, nCrash>>
 
 Crash(wipe) ==   \* stop at the yield point, restart the process (LMDB kept or emptied)
     /\ pc # "boot" /\ nCrash < MaxCrash
     /\ nCrash' = nCrash + 1
     /\ pc' = "boot" /\ lastSynced' = 0 /\ cur' = NoCur /\ ret' = "start" /\ avail' = <<>>
-    /\ hasDataAtStart' = FALSE /\ hasSnapshots' = FALSE /\ waitingOwn' = FALSE
-    /\ ownDelivered' = FALSE /\ ownOld' = ownOld
+    /\ hasDataAtStart' = FALSE /\ hasSnapshots' = FALSE /\ waitingOwn' = FALSE /\ waitingOther' = FALSE
+    /\ ownDelivered' = FALSE /\ ownOld' = ownOld /\ otherDelivered' = FALSE /\ otherOld' = otherOld
+    /\ tListing' = FALSE /\ tStore' = FALSE /\ tPass' = FALSE
     /\ IF wipe
        THEN /\ main' = EmptyMain /\ store' = EmptyStore /\ appDBI' = FALSE /\ shadowDBI' = FALSE /\ lastTxn' = 0
             /\ appLast' = EmptyMain /\ uncaptured' = {} /\ unpub' = {}
@@ -372,9 +411,9 @@ Crash(wipe) ==   \* stop at the yield point, restart the process (LMDB kept or e
     /\ UNCHANGED <<clock, bucket, iter, nApp, nRemote>>
 
 RemoteImgs == [Keys -> RemoteVers \cup {Absent}]
-Env == \/ \E k \in Keys, v \in AppVals \cup {-1} : AppCommit(k, v) /\ NoRS /\ NoMC
-       \/ \E img \in RemoteImgs : Inject(Image(img)) /\ NoMC
-       \/ DeliverOwn /\ NoRS /\ NoMC
+Env == \/ \E k \in Keys, v \in AppVals \cup {-1} : AppCommit(k, v) /\ NoRS /\ NoMC /\ NoT
+       \/ \E img \in RemoteImgs : Inject(Image(img)) /\ NoMC /\ NoT
+       \/ (DeliverOwn \/ DeliverOther) /\ NoRS /\ NoMC /\ NoT
        \/ \E w \in BOOLEAN : Crash(w) /\ NoRS
 
 Next == (Run /\ NoRS) \/ Env
@@ -421,6 +460,17 @@ BucketMonotone ==
 
 (* C05/C12: the cleaner is told about a merged remote snapshot only after an own snapshot containing it was stored *)
 CommittedOnlyAfterStore == [][committedN' # committedN => (pc = "send.stored" \/ act'.name = "crash")]_vars
+
+(* Readiness (status/starttracker, the health endpoint's "startup" check).  *)
+Ready == tListing /\ tStore /\ tPass
+(* ready only after the newest snapshot of every instance listed at start-up - the own one included - has been merged *)
+ReadyMeansLoaded == tPass => (pc # "boot" /\ AllLoaded)
+(* an instance that started with data is ready only after it has published a snapshot in this run *)
+ReadyMeansPublished == (tStore /\ hasDataAtStart) => sentSinceStart
+(* readiness is never taken back while the process runs *)
+ReadyStable == [][(Ready /\ act'.name # "crash") => Ready']_vars
+(* only_once: the loop returns only when nothing is left to wait for and every commit it saw is published *)
+ExitOnlyWhenDone == pc = "exit" => (AllLoaded /\ {c \in unpub : c.txn <= infoAtCheck} = {})
 
 TypeOK == /\ lastTxn \in Nat /\ lastSynced \in Nat
           /\ \A k \in Keys : main[k] \in {-1} \cup Val
